@@ -71,4 +71,48 @@ PROPS = {
         "assumptions": ["si,ti <= maxSiTi for the points handed to xyzToFaceSiTi (true for every finite non-zero vector: |u|,|v| <= 1)",
                         "loop depths are non-negative and < 2^31 (set by the polygon constructors)"],
     },
+    "C13": {
+        # harness generator, quick n, thorough n
+        "generators": [("c13", 300, 3000)],
+        "modules": ["S2.History"],
+        "translators": [],
+        "rule": "operation histories executed on the real code in a child process (hang => HANG, panic => PANIC): the 12 shortest "
+                "expected failures first; ALL histories of length <= 4 (thorough 5) over {add loop, add empty, build, reset, query}, "
+                "over {invert, contains, cell} for a 64- and an 8-vertex loop, over {invert, contains} for empty/full/normal polygons, "
+                "all EdgeQuery call sequences of length <= 3 over 7 call kinds x 6 option sets; then random histories up to length 30. "
+                "Every query step is compared with the same query on fresh objects (fresh index with all current shapes built once, "
+                "fresh EdgeQuery with the caller's options, fresh loop/polygon from the current vertices). "
+                "non-trivial = history with at least one query step after at least two other steps; distinct = distinct op sequence",
+        "nontrivial": lambda l: l.split(" = ")[0].count(",") >= 2 and any(t in l for t in ("query", "call:", "lcontains", "lcell", "pcontains")),
+        "trusted_base": ["geometry is abstracted: an answer in the model is the record of visible shapes + effective options; that the real "
+                         "answer is a function of exactly these is tied by the fresh-object comparison of the harness, not proved",
+                         "the model's 'same as fresh = N' is symbolic; the oracle accepts a concrete Y there (a wrong limit need not change a result)"],
+        "assumptions": ["histories that mutate a ShapeIndex (Add/Reset) while an EdgeQuery on it is alive are out of contract: the model "
+                        "drops the query object and the generator creates a new one",
+                        "Remove is not in the alphabet (removeShapeInternal is an unimplemented stub)"],
+        "partial": ["current_partial_single_build", "current_partial_first_update", "current_partial_search_answer"],
+    },
+    "C14": {
+        # built with `go build -race -tags verif`; falls back to the non-race binary (race=-) if -race is unavailable
+        "generators": [("c14", 60, 600)],
+        "harness_build_flags": ["-race"],
+        "modules": ["S2.Protocol", "S2.Generated.ProtocolIR"],
+        "translators": [("translator_c14", ["-repo", "$VERIF_REPO", "-out", "lean/S2/Generated/ProtocolIR.lean"])],
+        "regenerated_obligations": ["S2Proofs.C14.generated_wellFormed", "S2Proofs.C14.isFresh_is_one_atomic_load",
+                                    "S2Proofs.C14.mutators_store_status_last"],
+        "rule": "forced schedules through the four verif schedule points of maybeApplyUpdates under the Go race detector, each in a child "
+                "process with watchdog: named interleavings (both see stale, one builds while the other waits, late reader, serial) for N=2,3 "
+                "on 7 scenarios (index x ContainsPointQuery / CrossingEdgeQuery / EdgeQuery, loop point / cell, polygon point / relation), "
+                "ALL schedules of length <= 8 over two workers for idx-cpq (thorough: three workers, length <= 7), random schedules N=2..6, "
+                "and unforced stress runs with 4..32 goroutines; every answer compared with a serial run; events compared with the Lean "
+                "protocol model on the same schedule. non-trivial = at least two workers passed the status check before the store of fresh "
+                "(applies >= 2) or a worker was BLOCKED; distinct = distinct (scenario, N, schedule)",
+        "nontrivial": lambda l: "BLOCKED" in l or any(t.startswith("applies=") and t[8:].isdigit() and int(t[8:]) >= 2 for t in l.split()),
+        "trusted_base": ["Go memory model for sync/atomic and sync.RWMutex as encoded in S2.Protocol (sequentially consistent atomics, "
+                         "interleaving semantics, non-atomic accesses split in begin/end)",
+                         "that the Go functions touch only the modelled shared state, and that applyUpdatesInternal with nothing pending "
+                         "writes nothing readers read, is checked by the race detector on the forced schedules, not proved"],
+        "assumptions": ["no goroutine calls Add/Remove/Reset concurrently with queries (the library requires external synchronisation)"],
+        "partial": ["label: partial (protocol proved for all N and interleavings; footprint of the Go code by race detector)"],
+    },
 }
